@@ -279,8 +279,17 @@ class FunctorPool:
         return self
 
     def __exit__(self, exc_type=None, exc_val=None, exc_tb=None):
-        for _ in range(len(self.procs)):
-            self._work_queue.put(None)
+        stop_orders_to_send = len(self.procs)
+        while stop_orders_to_send > 0:
+            try:
+                self._work_queue.put(None, timeout=0.1)
+                stop_orders_to_send -= 1
+            except queue.Full:
+                # Workers that have already finished take no stop order (a worker may use up its chunks at the very end of
+                # the last call, too late to be replaced). When nobody is left to read, the orders that do not fit into
+                # the bounded queue would be waited for forever.
+                if all(p.exitcode is not None for p in self.procs):
+                    break
         for p in self.procs:
             if p.exitcode is None:
                 p.join(timeout=self.join_timeout)
